@@ -308,6 +308,7 @@ template <class V, class Rand> static void samplerResidue (const char* name, uin
     long double solidMaxL2 = 0, hollowMaxDev = 0, gaussMaxAbs = 0, gsMaxLen = 0;
     const long double eps = std::numeric_limits<T>::epsilon ();
     uint64_t    badSeed = 0;
+    int         bad = 0;
     for (int k = 0; k < nseeds; ++k)
     {
         static const uint64_t fixedSeeds[8] = {0ull, 1ull, 0xffffffffull, 0xffffffffffffffffull, 0x80000000ull, 0x7fffffffull, 0x5a5a5a5aull, 0xa5a573a5ull};
@@ -317,20 +318,20 @@ template <class V, class Rand> static void samplerResidue (const char* name, uin
         {
             ++n;
             V s = IM::solidSphereRand<V> (r);
-            if (!allFinite (s)) { ++solidNonfinite; badSeed = sd; }
+            if (!allFinite (s)) { ++solidNonfinite; if (!bad) { bad = 1; badSeed = sd; } }
             long double l2 = ldLength2 (s);
             if (l2 > solidMaxL2) solidMaxL2 = l2;
-            if (s.length2 () > 1 || l2 > 1 + 4 * eps) { ++solidOutside; badSeed = sd; }
+            if (s.length2 () > 1 || l2 > 1 + 4 * eps) { ++solidOutside; if (!bad) { bad = 1; badSeed = sd; } }
             V h = IM::hollowSphereRand<V> (r);
-            if (!allFinite (h)) { ++hollowNonfinite; badSeed = sd; }
+            if (!allFinite (h)) { ++hollowNonfinite; if (!bad) { bad = 1; badSeed = sd; } }
             long double dev = std::fabs (std::sqrt (ldLength2 (h)) - 1) / eps;
             if (dev > hollowMaxDev) hollowMaxDev = dev;
-            if (!(dev <= 4)) { ++hollowOff; badSeed = sd; }
+            if (!(dev <= 4)) { ++hollowOff; if (!bad) { bad = 1; badSeed = sd; } }
             float g = IM::gaussRand (r);
-            if (!std::isfinite (g)) { ++gNonfinite; badSeed = sd; }
+            if (!std::isfinite (g)) { ++gNonfinite; if (!bad) { bad = 1; badSeed = sd; } }
             if (std::fabs ((long double) g) > gaussMaxAbs) gaussMaxAbs = std::fabs ((long double) g);
             V gs = IM::gaussSphereRand<V> (r);
-            if (!allFinite (gs)) { ++gsNonfinite; badSeed = sd; }
+            if (!allFinite (gs)) { ++gsNonfinite; if (!bad) { bad = 1; badSeed = sd; } }
             long double gl = std::sqrt (ldLength2 (gs));
             if (gl > gsMaxLen) gsMaxLen = gl;
         }
